@@ -145,6 +145,10 @@ func (o *c05Oracle) walkStruct(fs []c05Fld, obj *c05JV, val reflect.Value, path 
 		}
 		p := path + "." + f.goName(i)
 		switch {
+		case f.Tag == "-skip":
+			// the interpreter found the field's value outside what the statement determines
+			o.unspec("field-not-judged")
+			continue
 		case f.Tag == "-other":
 			// not addressed by this source: stays zero whatever the document says
 			if fv.IsValid() && !fv.IsZero() {
@@ -179,6 +183,30 @@ func (o *c05Oracle) walkStruct(fs []c05Fld, obj *c05JV, val reflect.Value, path 
 			o.walkStruct(f.T.F, obj, ev, p)
 			continue
 		}
+		if f.T.P && (f.T.K == "map" || f.T.K == "slice") {
+			// (F18, repaired by 7387cb9: fillMap / fillSlice / fillSliceFromString used the pointer type as
+			// if it were the map / slice type and panicked; any panic there is a VIOLATION again)
+			o.class("pointer-to-collection")
+		}
+		if f.KS == "dotted" && f.Tag != "" && f.FK == "" {
+			// a key "parent.child" is looked up in the nested object `parent` by the code; the
+			// statement does not speak about such keys: UNSPECIFIED, only the predicates of known panics
+			o.unspec("dotted-key")
+			pc := strings.SplitN(f.key(i), ".", 2)
+			if ps := obj.lookup(pc[0]); len(pc) == 2 && len(ps) == 1 && ps[0].T == "obj" {
+				for _, cv := range ps[0].lookup(pc[1]) {
+					if cv.T != "null" {
+						sub := c05NewOracle()
+						sub.native = o.native
+						sub.value(&f.T, f, cv, reflect.Value{}, 0, p)
+						for id := range sub.panicPred {
+							o.panicPred[id] = true
+						}
+					}
+				}
+			}
+			continue
+		}
 		if f.Env && f.EV != nil && *f.EV != "" {
 			// documented by the package's tests: a set environment variable overrides the document
 			o.class("env-set")
@@ -193,11 +221,6 @@ func (o *c05Oracle) walkStruct(fs []c05Fld, obj *c05JV, val reflect.Value, path 
 			// statement (acceptance is never demanded); a PRESENT value is still held to exactness,
 			// options= and range=, an absent one may only leave zero or the default
 			o.unspec("optional-dep")
-		}
-		if f.T.P && (f.T.K == "map" || f.T.K == "slice") {
-			// finding ptr-to-collection-panic: fillMap / fillSlice / fillSliceFromString use the
-			// pointer type as if it were the map / slice type
-			o.panicPred["ptr-to-collection-panic"] = true
 		}
 		ms := obj.lookup(o.docKey(f.key(i)))
 		if len(ms) == 0 && f.Inh {
@@ -295,9 +318,7 @@ func (o *c05Oracle) envValue(f *c05Fld, text string, fv reflect.Value, p string)
 		}
 	default:
 		if t.K == "int64" {
-			// the env route treats every int64 field as a duration: a plain integer text is
-			// rejected ("missing unit"); allowed, so acceptance is not demanded
-			o.unspec("env-int64-as-duration")
+			// (F12, repaired by 85f7f67: the env route took every int64 field for a duration)
 			if _, err := time.ParseDuration(text); err == nil {
 				o.panicPred["env-int64-duration-panic"] = true
 			}
@@ -312,6 +333,9 @@ func (o *c05Oracle) nullField(f *c05Fld, fv reflect.Value, p string) {
 	}
 	if fv.Kind() == reflect.Ptr && fv.Elem().IsZero() {
 		return // a pointer to the zero value (YAML null reaches the unmarshaler as "")
+	}
+	if fv.Kind() == reflect.Ptr && (fv.Elem().Kind() == reflect.Slice || fv.Elem().Kind() == reflect.Map) && fv.Elem().Len() == 0 {
+		return // a pointer to an empty collection
 	}
 	switch fv.Kind() {
 	case reflect.Slice, reflect.Map:
@@ -397,7 +421,6 @@ func (o *c05Oracle) sliceDefault(f *c05Fld, fv reflect.Value, p string) {
 func (o *c05Oracle) absent(f *c05Fld, fv reflect.Value, p string) {
 	t := &f.T
 	if t.P && (t.K == "slice" || t.K == "map") {
-		o.unspec("pointer-to-collection")
 		if fv.IsValid() && fv.Kind() == reflect.Ptr {
 			if fv.IsNil() {
 				fv = reflect.Zero(fv.Type().Elem()) // nothing stored: an empty collection
@@ -507,10 +530,6 @@ func (o *c05Oracle) value(t *c05Typ, f *c05Fld, v *c05JV, fv reflect.Value, pos 
 			fv = fv.Elem()
 		}
 	}
-	if t.P && (t.K == "slice" || t.K == "map") {
-		// *[]T / *map[string]T: the code answers a present array with a type-mismatch error (allowed)
-		o.unspec("pointer-to-collection")
-	}
 	switch t.K {
 	case "struct":
 		if v.T != "obj" {
@@ -605,11 +624,6 @@ func (o *c05Oracle) value(t *c05Typ, f *c05Fld, v *c05JV, fv reflect.Value, pos 
 		if t.DK {
 			// a defined key type (map[Key]T): the code rejects it (string keys are not assignable): allowed
 			o.unspec("defined-map-key")
-		}
-		if o.native && !t.E.P && c05IsScalar(t.E.K) && t.E.K != "text" {
-			// a typed Go map (map[string]int, map[string]MyBool ...) whose element type has the kind
-			// of, but is not, the field's element type
-			o.panicPred["typed-map-elem-kind-only-panic"] = true
 		}
 		seen := map[string]int{}
 		for i := range v.M {
@@ -1028,13 +1042,11 @@ func (o *c05Oracle) constraints(f *c05Fld, text string, exact *big.Rat, _ float6
 		if !in {
 			o.hot = true
 			o.class("outside-range")
-			known := ""
+			// (F17, repaired by 0af4e9d: a present optional=<dep> field used to lose its range=)
 			if f.OD != "" {
-				// finding optional-dep-range-dropped: toOptionsWithContext rebuilds the options of a
-				// PRESENT optional=<dep> field without its range
-				known = "optional-dep-range-dropped"
+				o.class("optional-dep:value-outside-range")
 			}
-			o.fail(known, "%s: %s outside range %+v", p, text, *f.Rng)
+			o.fail("", "%s: %s outside range %+v", p, text, *f.Rng)
 			return false
 		}
 		o.class("inside-range")
@@ -1092,8 +1104,6 @@ var c05PanicSig = map[string][]string{
 	"env-pointer-panic":                      {"on zero Value"},
 	"env-int64-duration-panic":               {"value of type time.Duration is not assignable to type int64"},
 	"fillslicefromstring-null-elem-panic":    {"invalid memory address or nil pointer dereference"},
-	"ptr-to-collection-panic":                {"reflect: Key of non-map type *"},
-	"typed-map-elem-kind-only-panic":         {"reflect.Value.SetMapIndex: value of type"},
 }
 
 func c05PanicKnown(o *c05Oracle, msg string) string {
@@ -1102,15 +1112,9 @@ func c05PanicKnown(o *c05Oracle, msg string) string {
 		ids = append(ids, id)
 	}
 	sort.Strings(ids)
-	if o.panicPred["ptr-to-collection-panic"] && (strings.Contains(msg, "reflect: Key of non-map type *") ||
-		strings.Contains(msg, "reflect.Set: value of type []") && strings.Contains(msg, "is not assignable to type *")) {
-		// (more specific than the older signatures it shares a prefix with)
-		return "ptr-to-collection-panic"
-	}
 	for _, id := range ids {
 		sigs := c05PanicSig[id]
 		switch id {
-		case "ptr-to-collection-panic":
 		case "fillslice-struct-elem-panic":
 			if strings.Contains(msg, sigs[0]) && strings.Contains(msg, sigs[1]) {
 				return id
